@@ -38,6 +38,17 @@ def log(*a):
     print(*a, file=sys.stderr, flush=True)
 
 
+def brief(out, n=25):
+    """Last lines of a tool's output that matter (TLC repeats its semantic errors once per module)."""
+    lines = [l for l in out.splitlines() if l.strip() and not l.startswith(("Semantic processing", "Parsing file", "Linting"))]
+    seen, res = set(), []
+    for l in lines:
+        if l not in seen:
+            seen.add(l)
+            res.append(l)
+    return "\n".join(res[-n:])
+
+
 def sh(cmd, cwd=None, timeout=None, env=None):
     e = dict(os.environ)
     if env:
@@ -117,7 +128,7 @@ def model_check(spec_dir, module, cfg, workers=4, timeout=900, xmx="8g"):
     tagged, gen, dist = parse_tlc_output(out)
     ok = "Model checking completed. No error has been found." in out
     if not ok:
-        log(out[-4000:])
+        log(brief(out))
         raise ToolError(f"R1 model checking of {module} ({cfg}) did not complete cleanly")
     log(f"[R1] {module} {cfg}: {dist} distinct states, {gen} generated, {wall:.1f}s")
     return {"module": module, "cfg": cfg, "states": dist, "transitions": gen, "wall_s": round(wall, 1), "tagged": tagged}
@@ -134,10 +145,10 @@ def generate(spec_dir, module, cfg, out_path, tagname="WITNESS", workers=1, time
     rc, out, wall = tlc(spec_dir, module, cfg, workers=workers, timeout=timeout)
     tagged, gen, dist = parse_tlc_output(out)
     if "Model checking completed. No error has been found." not in out and "Finished in" not in out:
-        log(out[-3000:])
+        log(brief(out))
         raise ToolError(f"generator {module} ({cfg}) failed")
     if "Error:" in out and "No error has been found" not in out:
-        log(out[-3000:])
+        log(brief(out))
         raise ToolError(f"generator {module} ({cfg}) reported an error")
     os.makedirs(os.path.dirname(out_path), exist_ok=True)
     tmp = out_path + ".tmp"
@@ -164,7 +175,7 @@ def validate_trace(spec_dir, module, cfg, trace_path, timeout=1800, xmx="3g", ex
     tagged, gen, dist = parse_tlc_output(out)
     rep = tagged.get("REPORT", [None])[-1]
     if rep is None or rep.get("consumed") != rep.get("total") or "UNPARSED" in tagged:
-        log(out[-5000:])
+        log(brief(out))
         raise ToolError(f"trace validation of {trace_path} with {module} failed to consume the trace (report={rep})")
     if int(rep.get("viol", 0)) != len(tagged.get("VIOL", [])):
         raise ToolError(f"VIOL line count {len(tagged.get('VIOL', []))} differs from register {rep.get('viol')} for {trace_path}")
